@@ -22,8 +22,11 @@ def configs(tier):
     Ts = (300., 400., 450.) if tier == 'quick' else (260., 300., 350., 400., 450., 490.)
     Ps = (1e5, 2e5) if tier == 'quick' else (1e4, 1e5, 1e6, 1e7)
     comps = ((20., 10., 5.), (5., 30., 0.)) if tier == 'quick' else ((20., 10., 5.), (5., 30., 0.), (1., 0., 0.), (0., 0., 3.), (1e-3, 2e3, 1.))
-    for pkg in ('ideal', 'PR'):
+    # 'ideal+excess': the ideal mixture with include_excess_energies=True (added after seeded change C02_10: a solver that iterates on
+    # another entropy function than the one the stream reports)
+    for pkg in ('ideal', 'PR', 'ideal+excess'):
         for phase in ('g', 'l'):
+            if pkg == 'ideal+excess' and phase == 'l': continue      # liquid entropies of the real models are noisy (F-C02-K1)
             for T in Ts:
                 for P in Ps:
                     for z in comps:
@@ -56,11 +59,12 @@ def reachable(stream, name, target, lo=250., hi=500.):
        functions=['thermosteam.mixture.mixture:Mixture.solve_T_at_HP', 'thermosteam.mixture.mixture:Mixture.solve_T_at_SP',
                   'thermosteam._stream:Stream.H (setter)', 'thermosteam._stream:Stream.S (setter)', 'thermosteam._stream:Stream.mix_from',
                   'thermosteam._stream:Stream.separate_out'],
-       notes='real Aitken/secant solvers and real property models: {ideal, Peng-Robinson EOS} mixture x phase l/g x T grid x P grid x compositions of Water/Ethanol/Propane; '
+       notes='real Aitken/secant solvers and real property models: {ideal, Peng-Robinson EOS, ideal with excess energies (gas only)} mixture x phase l/g x T grid x P grid x compositions of Water/Ethanol/Propane; '
              'read-back within 1e-6 relative (+1e-3 absolute), T unchanged within 1e-4 K when the current value is assigned; calls that raise and targets that no temperature in 250-500 K attains (bisection on a copy) are skipped')
 def real_solvers(w, cfg):
     ch = _chemicals()
-    mixture = None if cfg['pkg'] == 'ideal' else tmo.PRMixture.from_chemicals(ch)
+    mixture = (None if cfg['pkg'] == 'ideal' else tmo.PRMixture.from_chemicals(ch) if cfg['pkg'] == 'PR'
+               else tmo.IdealMixture.from_chemicals(ch, include_excess_energies=True))
     tmo.settings.set_thermo(ch, mixture=mixture)
     flows = dict(zip(('Water', 'Ethanol', 'Propane'), cfg['z']))
     close = lambda a, b: abs(a - b) <= 1e-3 + 1e-6 * max(abs(a), abs(b))
